@@ -492,8 +492,14 @@ def stream_hexdigest_setup(b):
         # here: the non-empty reads of the stream, whose concatenation is the remaining content
         if len(args) != 2:
             raise sym.Unsupported('iter form')
-        st.emit('iter_reads', fn=args[0])
-        yield st, IterSpec(n, lambda kk: SV(BYTES, piece(kk)))
+        st.emit('iter_reads', fn=args[0], sentinel=args[1])
+        # one call of the producer, to see what a step does: which stream it reads and with which size
+        from vf.interp import Closure as _Cl
+        if isinstance(args[0], _Cl):
+            for s2, v in interp.call(st, args[0], [], {}):
+                yield s2, IterSpec(n, lambda kk: SV(BYTES, piece(kk)))
+        else:
+            yield st, IterSpec(n, lambda kk: SV(BYTES, piece(kk)))
 
     b.bind('iter', Model('iter', iter2))
 
@@ -501,8 +507,14 @@ def stream_hexdigest_setup(b):
         st.emit('stream_seek', pos=args[1])
         yield st, args[1]
 
-    STREAM.attrs = {'seek': MethodModel('seek', seek), 'read': MethodModel('read', lambda i, s, a, k_: iter([(s, b'')]))}
+    def read(interp, st, args, kwargs):
+        st.emit('stream_read', stream=args[0], size=args[1] if len(args) > 1 else None)
+        yield st, b''
+
+    STREAM.attrs = {'seek': MethodModel('seek', seek), 'read': MethodModel('read', read)}
     b.sym('stream', STREAM)
+    b.sym('chunk_size', INT)
+    b.assume(b.st.lookup('chunk_size').z >= 1)         # callers pass chunk sizes >= 1 (the commands' formula, C20.site)
 
 
 def stream_hexdigest_post(prop):
@@ -517,6 +529,12 @@ def stream_hexdigest_post(prop):
             res.oblige(p, f'{prop}.s3.stream_hexdigest.hash_of_all_bytes_read', sym.lift(p.value, STR).z == SHA256HEX(b.pref(b.n)))
             res.oblige(p, f'{prop}.s3.stream_hexdigest.rewinds', z3.BoolVal(len(sk) == 1) if len(sk) != 1 else
                        sym.lift(sk[0].data['pos'], INT).z == 0)
+            # the reads that feed the hash use a POSITIVE size and stop at the empty read only: so they cover the whole payload
+            # (read(0) returns b'' at once and would end the loop with nothing hashed)
+            rd, it = p.events('stream_read'), p.events('iter_reads')
+            ok = len(rd) == 1 and len(it) == 1 and rd[0].data['stream'] is b.st.lookup('stream') and it[0].data['sentinel'] == b'' and rd[0].data['size'] is not None
+            res.oblige(p, f'{prop}.s3.stream_hexdigest.reads_the_whole_stream_in_positive_sizes', z3.BoolVal(ok) if not ok else
+                       sym.lift(rd[0].data['size'], INT).z >= 1)
     return post
 
 
